@@ -130,6 +130,8 @@ def extra_programs(n: grammar.Names) -> list[dict[str, Any]]:
         "{% with it: g %}{% include 'inc' %}{% endwith %}{% include 'inc' %}{% for it in arr %}{% include 'inc' %}{% endfor %}",
         "{% for a in arr %}{% render 'inc' %}{% endfor %}{% render 'inc' %}{% render 'inc', a: 1 %}",
         "{% macro mm a %}{% render 'inc' %}{% endmacro %}{% call mm 1 %}{% include 'inc' %}",
+        # liquid tags whose last line statement is closed on the same line
+        "{% liquid echo g %}{% liquid\n assign q = g\n echo q -%}{% liquid if h\n echo h.a | upcase\n endif%}",
         # names bound by a block are not in scope in the parts of the block that run without the binding
         "{% for it in nosuch %}{{ it }}{% else %}{{ it }}{{ forloop.index }}{% endfor %}",
         "{% tablerow a in nosuch %}{{ a }}{% endtablerow %}{{ a }}",
